@@ -65,19 +65,22 @@ type hubListener struct {
 	left         bool
 	lazy         bool // its consumer does not read: events stay buffered (at most 100)
 	buffered     int  // lazy: events offered since the consumer last caught up
-	dropped      bool // lazy: an event was offered while 100 were buffered - the hub drops such a monitor for good
+	overflowAt   int  // lazy: len(want) when an event was first offered with 100 unread ones queued (-1 = never)
 	pendAtLeave  int
 }
 
 // offer records that the hub will offer ev to l, according to the model.
 func (l *hubListener) offer(ev string) {
-	if l.left || l.dropped {
+	if l.left {
 		return
 	}
 	if l.lazy {
-		if l.buffered == 100 {
-			l.dropped = true
-			return
+		// From the 101st unread event on the hub MAY drop this monitor (the queue holds 100 today;
+		// its exact size is not part of the property): want keeps growing as if it were never
+		// dropped, overflowAt remembers how much it had been offered before the first event that
+		// could have overflowed.
+		if l.buffered >= 100 && l.overflowAt < 0 {
+			l.overflowAt = len(l.want)
 		}
 		l.buffered++
 	}
@@ -188,7 +191,7 @@ func c15Exec(c *fw.Ctx, hlen int, seq []int) (key string, extend, nontrivial boo
 					}
 				}
 			case "join":
-				l := &hubListener{kind: f[1]}
+				l := &hubListener{kind: f[1], overflowAt: -1}
 				if f[2] == "a" {
 					l.filter = "a"
 				}
@@ -273,15 +276,16 @@ func c15Exec(c *fw.Ctx, hlen int, seq []int) (key string, extend, nontrivial boo
 			if l.lazy {
 				l.drain()
 			}
-			if l.dropped {
-				// a monitor the hub had to drop: what it did receive is a gap-free prefix of what was
-				// offered before the drop, and nothing after it
-				ok := len(l.got) <= len(l.want)
+			if l.overflowAt >= 0 && len(l.got) < len(l.want) {
+				// a monitor the hub was entitled to drop: what it received is a gap-free prefix of
+				// what was offered (its consumer stops once the listener is closed, wherever it
+				// was), and nothing after the point where it was dropped
+				ok := true
 				for j := 0; ok && j < len(l.got); j++ {
 					ok = l.got[j] == l.want[j]
 				}
 				if !ok {
-					c.Violate("seq|dropped-listener-sequence|"+l.kind, fmt.Sprintf("listener %d (%s) did not read while more than 100 events were offered to it; the hub drops such a monitor, which may then have received a prefix of %d events at most - it received %d: …%v\nops: %s", i, l.kind, len(l.want), len(l.got), l.got[max(0, len(l.got)-4):], strings.Join(cas.Ops, "; ")), cas)
+					c.Violate("seq|dropped-listener-sequence|"+l.kind, fmt.Sprintf("listener %d (%s) was not reading while more than 100 events were offered to it; the hub may drop such a monitor, which then must have received a gap-free prefix of what was offered - it received %d events: …%v, offered …%v\nops: %s", i, l.kind, len(l.got), l.got[max(0, len(l.got)-3):], l.want[max(0, min(len(l.want), len(l.got))-3):min(len(l.want), len(l.got)+1)], strings.Join(cas.Ops, "; ")), cas)
 					extend = false
 				}
 				continue
@@ -293,7 +297,7 @@ func c15Exec(c *fw.Ctx, hlen int, seq []int) (key string, extend, nontrivial boo
 		}
 		var lk []string
 		for _, l := range ls {
-			lk = append(lk, fmt.Sprintf("%s/%s/%v/%d/%v", l.kind, l.filter, l.left, l.buffered, l.dropped))
+			lk = append(lk, fmt.Sprintf("%s/%s/%v/%d/%v", l.kind, l.filter, l.left, l.buffered, l.overflowAt >= 0))
 		}
 		key = fmt.Sprintf("%v|%v|%v", mo.history(), len(mo.stored), lk)
 		for _, l := range ls {
